@@ -189,6 +189,10 @@ def _case(draw, tier):
     pairs = [p for p in PAIRS if _candidates(recipe, *p) and not (avoid_line and p[0] == "line")]
     if not pairs:
         pairs = [p for p in PAIRS if _candidates(recipe, *p)]
+    if not pairs:      # nothing drivable (e.g. only a slack generator): add a load at the first bus
+        recipe["el"].append({"t": "load", "bus": 0, "p_mw": round(netgen.LEVELS[recipe["buses"][0]["vn_kv"]]["s"] * 0.1, 6),
+                             "q_mvar": 0.0})
+        pairs = [("load", "p_mw")]
     chosen = draw(st.lists(st.sampled_from(pairs), min_size=1, max_size=min(4, len(pairs)), unique=True))
     rows = draw(st.integers(2, 6))
     ctrls = []
@@ -238,17 +242,19 @@ def strategy(tier):
 
 # ---------------------------------------------------------------------------------------------------------------------
 
-def _tol(col):
-    """(atol, rtol) by column kind (DESIGN.md sec. 1.6)"""
+def _tol(col, sn, vn_min):
+    """(atol, rtol) by column kind (DESIGN.md sec. 1.6); the absolute floor of currents is the power floor expressed
+    as a current at the lowest voltage level of the network"""
+    p_floor = 1e-5 * max(1.0, sn / 100.0)
     if col.endswith("_mw") or col.endswith("_mvar"):
-        return 1e-5, 1e-7
+        return p_floor, 1e-7
     if col.startswith("vm_") or col == "vm_pu":
         return 1e-8, 0.0
     if col.startswith("va_"):
         return 1e-6, 0.0
     if col.endswith("_ka"):
-        return 1e-9, 1e-6
-    return 1e-6, 1e-6      # loading_percent
+        return p_floor / (math.sqrt(3) * vn_min), 1e-6
+    return 1e-4, 1e-6      # loading_percent
 
 
 def _requested(case, maps):
@@ -433,6 +439,8 @@ def check(case):
             res.fail("recycle/" + cause if cause else "ts-not-converged/%s" % mode, error=repr(e)[:200])
         elif kind == "skip":
             res.fail("ts-rejected/%s/%s" % (mode, what), error=repr(e)[:300])
+        elif mode == "recycle" and _recycle_cause(base, case, mode):
+            res.fail("recycle/" + _recycle_cause(base, case, mode), error=repr(e)[:300], where=exc_sig(e))
         else:
             sig = exc_sig(e)
             tag = _batch_prediction(req) if mode == "batch" and sig.endswith(":get_batch_outputs") else None
@@ -470,9 +478,7 @@ def check(case):
         if got.shape != exp.shape:
             res.fail("shape/%s/%s" % (mode, t), variable=name, have=list(got.shape), want=list(exp.shape))
             continue
-        atol, rtol = _tol(c)
-        if atol == 1e-5:
-            atol *= max(1.0, sn / 100.0)
+        atol, rtol = _tol(c, sn, float(base.bus.vn_kv.min()))
         bad = ~((np.abs(got - exp) <= atol + rtol * np.maximum(np.abs(got), np.abs(exp))) | (np.isnan(got) & np.isnan(exp)))
         if t in ("res_gen", "res_ext_grid") and c in ("p_mw", "q_mvar"):
             # the split of P/Q between several voltage-controlling elements of one node is not unique (DESIGN sec. 5.4)
